@@ -102,6 +102,12 @@ def _inline_one(caller_rec, b, h):
             return x
 
         hm = sub(hm)
+        # a generic `impl Fn` parameter instantiated with a function item or pointer has no destructor: its scope-end drop in
+        # the generic body is a no-op in this instantiation
+        for blk_ in hm["blocks"]:
+            t_ = blk_["term"]
+            if t_.get("k") == "drop" and str(t_.get("ty", "")).startswith(("fn{", "fn(", "for<", "unsafe fn(", "extern ")):
+                blk_["term"] = {"k": "goto", "target": t_["target"], "loc": t_.get("loc"), "desugared": "drop-of-fn-item"}
     loff, boff = len(m["locals"]), len(m["blocks"])
     blk = m["blocks"][b]
     t = blk["term"]
